@@ -207,6 +207,8 @@ fn encode_stage(rng: &mut Rng, name: &str, plain: &[u8], pred_want: u64, quirks:
             if rng.chance(1, 3) {
                 let block = *rng.pick(&[1usize, 7, 100, 65535, 70000]);
                 Encoded { bytes: enc::zlib_stored(&body, block), spec: format!("fl:s{}:{}", block, ptok), dict: d, extra_z: None, tags }
+            } else if rng.chance(1, 4) {
+                Encoded { bytes: enc::zlib_fixed(&body), spec: format!("fl:f0:{}", ptok), dict: d, extra_z: None, tags }
             } else {
                 use std::io::Write;
                 let mut z = flate2::write::ZlibEncoder::new(vec![], flate2::Compression::new(rng.below(10) as u32));
